@@ -3,7 +3,8 @@ import Tuc.Props.C07
 /-!
 # C05, corollary for the property's own quantifier: "all valid-UTF-8 inputs"
 
-`fwd_eq_spec` asks every *line* to be valid UTF-8 (what `read_line` checks, one line at a time).
+`fwd_eq_spec` asks every *line* to be valid UTF-8 (what the line reader checks, one line at a
+time, with either EOL).
 A valid UTF-8 input has only valid lines, because the EOL (`\n` or NUL, both ASCII) never occurs
 inside a multi-byte scalar value.  (Uses the segmentation lemmas of `Tuc.Props.C07`.)
 -/
@@ -69,6 +70,6 @@ theorem fwd_eq_spec_utf8 (o : Opt) (input : Bytes) (bs : List UserBounds)
     (hc : o.complement = false) :
     cutLinesForwardOnly o input = specLines (cfgOf o) input :=
   fwd_eq_spec o input bs hplain hfwd hres
-    (fun _ => validUtf8_records o.eol.byte (EOL.byte_ascii o.eol) input hutf) h0 h1 hc
+    (validUtf8_records o.eol.byte (EOL.byte_ascii o.eol) input hutf) h0 h1 hc
 
 end Tuc
